@@ -53,10 +53,114 @@ def emit(S, rule, kind, f, rr, ok_text, minimum=None):
     return n
 
 
+def rule_asc(S, rule='R-ASC'):
+    """R-ASC: keys leave a left-to-right scan in strictly ascending order (finding F12)."""
+    from yk.flow import Explorer
+    facts = S.facts()
+    S.rule(rule, 'scan_border<V>: every push of an entry to the result list is reached, within the visit of that entry, '
+                 'only after the entry\'s key was established greater than the key delivered last (a comparison of the '
+                 'key buffer with the key of result.back()), or with the result list found empty, or in a right-to-left '
+                 'scan (at most one entry): a border that has absorbed the key range of a deleted left neighbour can hold '
+                 'a key the scan has already delivered, and re-reading the border after a failed validation would '
+                 'deliver it again behind greater keys')
+    n = 0
+    for f in [g for g in facts.by_qname(Y + 'scan_border') if not g.is_lambda]:
+        strs = {v['id'] for nd in f.all_nodes() if nd['k'] == 'DeclStmt' for v in nd.get('vars', [])
+                if (v['type'].replace('const ', '').startswith('std::basic_string<char') or v['type'] == 'std::string')
+                and '&' not in v['type']}
+        res = [p['id'] for p in f.params if 'std::vector<std::tuple<' in p['type']]
+        bools = [p['id'] for p in f.params if p['type'].replace('const ', '') == 'bool']
+        if len(res) != 1 or not bools:
+            raise AnalysisBroken('%s: result list / direction flag of scan_border not identified' % rule)
+        res, rtl = res[0], bools[-1]
+        sites = {}
+
+        def mentions(g, n_, ids):
+            return any(x['k'] == 'DeclRefExpr' and x.get('id') in ids for x in g.walk(n_))
+
+        def is_back(g, n_, depth=0):
+            for x in g.walk(n_):
+                if x['k'] in CALL_KINDS and x.get('cn') == 'back' and root_var(g, call_recv(g, x)) == res:
+                    return True
+                if x['k'] == 'DeclRefExpr' and x.get('dk') == 'var' and x.get('id') not in strs and depth < 3:
+                    ini = R.var_decl_init(g, x.get('id'))        # a named reference to result.back()'s key
+                    if ini is not None and is_back(g, ini, depth + 1):
+                        return True
+            return False
+
+        def make(g):
+            def step(ctx, nd, st):
+                if is_call(nd, cq=Y + 'permutation::get_index_of_rank'):
+                    return 'unknown'
+                tg = R.lambda_target(facts, g, nd)
+                if tg is not None:
+                    ex2 = Explorer(tg, *make(tg))
+                    ex2.run(st)
+                    outs = set(ex2.exit_states) | {s_ for s_, _ in ex2.return_states}
+                    return list(outs) or [st]
+                if nd['k'] in CALL_KINDS and nd.get('cn') in ('emplace_back', 'push_back') and \
+                        root_var(g, call_recv(g, nd)) == res:
+                    e = sites.setdefault('push at ' + short_loc(nd), {'ok': True, 'loc': short_loc(nd), 'path': None})
+                    if st != 'above':
+                        e['ok'] = False
+                        e['path'] = e['path'] or ctx.witness()
+                if nd['k'] == 'ReturnStmt':
+                    return st if g is not f else None
+                return st
+
+            def branch(ctx, blk, idx, st):
+                if not (blk.term and 'cond' in blk.term and len(blk.succ) == 2):
+                    return st
+                c = g.strip(blk.term['cond'], casts=True)
+                truth = idx == 0
+                while c is not None and c['k'] == 'UnaryOperator' and c.get('op') == '!':
+                    truth = not truth
+                    c = g.strip(g.ch(c)[0], casts=True)
+                if c is None:
+                    return st
+                if c['k'] == 'DeclRefExpr' and c.get('id') == rtl and truth:
+                    return 'above'                   # right-to-left: a single entry is delivered
+                if c['k'] in CALL_KINDS and c.get('cn') == 'empty' and root_var(g, call_recv(g, c)) == res and truth:
+                    return 'above'                   # nothing delivered yet
+                op = None
+                kids = None
+                if c['k'] == 'CXXOperatorCallExpr' and (c.get('cn') or '').startswith('operator') and \
+                        c['cn'][8:] in ('<', '<=', '>', '>='):
+                    op, kids = c['cn'][8:], [g.node(x) for x in c.get('args', [])]
+                elif c['k'] in CALL_KINDS and c.get('cn') == 'compare':
+                    return st
+                if op and len(kids) == 2:
+                    l_key, r_key = mentions(g, kids[0], strs), mentions(g, kids[1], strs)
+                    l_back, r_back = is_back(g, kids[0]), is_back(g, kids[1])
+                    rel = None                        # relation `key REL back` that holds on this edge
+                    if l_key and r_back and not l_back:
+                        rel = op if truth else {'<': '>=', '<=': '>', '>': '<=', '>=': '<'}[op]
+                    elif r_key and l_back and not r_back:
+                        flip = {'<': '>', '<=': '>=', '>': '<', '>=': '<='}[op]
+                        rel = flip if truth else {'<': '>=', '<=': '>', '>': '<=', '>=': '<'}[flip]
+                    if rel == '>':
+                        return 'above'
+                return st
+            return step, branch
+
+        Explorer(f, *make(f)).run('unknown')
+        fname = f.qname + ('<%s>' % f.targs if f.targs else '')
+        for site, e in sorted(sites.items()):
+            n += 1
+            S.ob(rule, fname, site, e['ok'],
+                 'the entry\'s key is above the key delivered last (or nothing was delivered, or the scan runs right to '
+                 'left)' if e['ok'] else
+                 'an entry is pushed without its key having been compared with the key delivered last: a key inserted '
+                 'behind the scan position (into a border that absorbed a deleted neighbour\'s range) is delivered again, '
+                 'out of order', loc=e['loc'], path=e['path'])
+    S.require(rule, 'result pushes in scan_border', n, 3)
+
+
 def run(S):
     facts = S.facts()
     S.undecided = ['"every returned pair was current at some instant", "no stable key is lost" as statements about all '
-                   'interleavings', 'strict ascending order of the result']
+                   'interleavings', 'strict ascending order of the result as a statement about all interleavings '
+                   '(R-ASC decides its necessary condition: no push without the comparison with the key delivered last)']
     S.assumptions = ['scan_check_retry returning OK means the border version equals the validated one (decided by C06 R-EQ)']
     S.rule('R-VAR', 'scan_border<V>: at every tuple_list.emplace_back and at every nested scan of a next layer, every '
                     'load of the visited border (next pointer, permutation, key slice/length, slot word) is followed '
@@ -87,6 +191,7 @@ def run(S):
     rule_rbk_sizes(S)
     rule_end_layer(S)
     rule_key(S)
+    rule_asc(S)
     # every visited border applies the walk's own endpoints (shared with C03): "inside the requested interval"
     from checks.C03 import rule_lft
     rule_lft(S)
